@@ -40,6 +40,31 @@ static void sweep_positions(const char *name, int len, int level, int gz, int cp
 				g_strict_free = 0;
 				v_eval();
 				v_count("flush_position_runs", 1);
+				/* the same positions with a flush request issued on an EMPTY call (no new input) right after data call i:
+				 * data call carries flush kind a in {NO,SYNC,FULL}, the empty call kind b in {SYNC,FULL}; kinds taken from the loop variable */
+				if (i >= 0 && j == i + 1 && kinds == 0 && r != EX_VIOLATION) {
+					for (int a = 0; a < 3 && nfail <= 20; a++)
+						for (int b = 1; b < 3; b++) {
+							snprintf(ctxdesc, sizeof ctxdesc, "input=%s level=%d wrapper=%s cpu=%s chunks=%d data-call@%d=%s then empty-call=%s", name, level, gz_name[gz], cpu_level_name[cpu], cin, i,
+								 flush_name[a], flush_name[b]);
+							g_strict_free = 1;
+							def_reset(8);
+							int rr = EX_NEXT, c2 = 0;
+							while (rr == EX_NEXT && c2 < ncalls + 40) {
+								rr = def_call(cin, -1, c2 == i ? a : NO_FLUSH, 1, NULL); /* eos announced late: an empty call may follow the last chunk */
+								if (c2 == i && rr == EX_NEXT)
+									rr = def_call(0, -1, b, 1, NULL);
+								c2++;
+								if (DCUR.in_off == DINLEN && rr == EX_NEXT) {
+									rr = def_finish_generously(NULL, 8) ? EX_VIOLATION : EX_TERMINAL;
+									break;
+								}
+							}
+							g_strict_free = 0;
+							v_eval();
+							v_count("empty_flush_call_runs", 1);
+						}
+				}
 				if (r == EX_NEXT) {
 					char key[600];
 					snprintf(key, sizeof key, "deflate no-termination %s", ctxdesc);
@@ -161,23 +186,27 @@ int main(int argc, char **argv)
 				}
 	}
 	if (!v_part || !strcmp(v_part, "positions")) {
-		LIN = malloc(4000);
+		LIN = malloc(40000);
 		static const int cpus[] = { CPU_BASE, CPU_SSE, CPU_AVX2, CPU_AVX512G2 };
 		uint64_t unit = 0;
-		for (int variant = 0; variant < (v_thorough ? 4 : 2); variant++)
+		for (int variant = 0; variant < (v_thorough ? 6 : 3); variant++)
 			for (int level = 0; level <= 3; level++)
 				for (int ci = 0; ci < 4; ci++) {
 					if (!v_mine(unit++))
 						continue;
 					if (nfail > 20 || v_deadline_hit())
 						break;
-					int len = variant == 0 ? 600 : variant == 1 ? 1500 : variant == 2 ? 3000 : 300;
+					/* variant 2 / 5: large pieces handed over in single calls (compressed straight from the caller's buffer, no internal buffering) */
+					int len = variant == 0 ? 600 : variant == 1 ? 1500 : variant == 2 ? 32000 : variant == 3 ? 3000 : variant == 4 ? 300 : 39000;
 					/* content with repeats across every possible flush point: period 61 text */
 					for (int i = 0; i < len; i++)
 						LIN[i] = (uint8_t)("flush point test data, quite repetitive. 0123456789 abcdefghi "[i % 61]);
-					char nm[32];
-					snprintf(nm, sizeof nm, "period61:%d", len);
-					sweep_positions(nm, len, level, variant % 2 ? IGZIP_GZIP : IGZIP_DEFLATE, cpus[ci], variant == 2 ? 300 : 97);
+					char nm[64];
+					for (SE_CONTIG = 0; SE_CONTIG < 2; SE_CONTIG++) {
+						snprintf(nm, sizeof nm, "period61:%d%s", len, SE_CONTIG ? ":contiguous" : ":fresh-chunks");
+						sweep_positions(nm, len, level, variant % 2 ? IGZIP_GZIP : IGZIP_DEFLATE, cpus[ci], variant == 2 ? 9000 : variant == 5 ? 13000 : variant == 3 ? 300 : 97);
+					}
+					SE_CONTIG = 0;
 				}
 	}
 	if (!v_part || !strcmp(v_part, "stateless"))
